@@ -141,6 +141,11 @@ def run(tier):
                 refs_ = list(order[:links])
                 v_ = head_ + "".join(f"(${r_})" for r_ in refs_)
                 cases.append((cl("f" * len(head_) + "($f)" * links), row5[0], row5[1], row5[2], v_, 0, head_, refs_, row5[3]))
+    # the recorded examples of two open findings (judged in every run): a head that is the name of a MathML token element, and a concept
+    # the rules know with another number of arguments
+    two = ("mrow", "<math><mrow{I}><mi arg='a'>x</mi><mo>+</mo><mi arg='b'>y</mi></mrow></math>", {"a": "x", "b": "y"}, {"a": "child", "b": "child"})
+    for v_, shape in (("mo($a)($b)", "ff($f)($f)"), ("mi($a)", "ff($f)"), ("mtext($a)", "fffff($f)"), ("fraction($a)", "ffffffff($f)")):
+        cases.append((cl(shape), two[0], two[1], two[2], v_, 0, v_.split("(")[0], re.findall(r"\$(\w)", v_), two[3]))
     # the same VALUE on one element after another in one session: whether a value is legal depends on the element it sits on (what
     # its references reach), so a verdict reached for one element must not carry over to the next
     n_main = len(cases)
